@@ -56,7 +56,7 @@ func LoadWorld(repo string, pkgDirs []string) (*World, error) {
 	w := &World{repo: repo, pkgs: map[string]*ssa.Package{}, tpkgs: map[string]*packages.Package{}, loopHeads: map[*ssa.BasicBlock]*loopHead{},
 		specInsts: map[*gen]map[string]*specInst{}, funcsByKey: map[string]*ssa.Function{}}
 	w.fset = token.NewFileSet()
-	cfg := &packages.Config{Mode: packages.LoadAllSyntax, Dir: repo, BuildFlags: []string{"-tags=verif"}, Fset: w.fset}
+	cfg := &packages.Config{Mode: packages.LoadSyntax, Dir: repo, BuildFlags: []string{"-tags=verif"}, Fset: w.fset}
 	if ov := os.Getenv("GOVC_OVERLAY"); ov != "" {
 		// same format as go build -overlay: {"Replace": {"/repo/x.go": "/scratch/x.go"}}
 		data, err := os.ReadFile(ov)
@@ -95,7 +95,7 @@ func LoadWorld(repo string, pkgDirs []string) (*World, error) {
 	if len(errs) > 0 {
 		return nil, fmt.Errorf("load errors: %s", strings.Join(errs, "; "))
 	}
-	prog, spkgs := ssautil.AllPackages(pkgs, ssa.InstantiateGenerics|ssa.GlobalDebug)
+	prog, spkgs := ssautil.Packages(pkgs, ssa.InstantiateGenerics|ssa.GlobalDebug)
 	prog.Build()
 	w.prog = prog
 	for i, sp := range spkgs {
